@@ -198,31 +198,67 @@ def run(ctx, chk):
     first = [show(n) for n in walk(f["body"]) if n[0] == "call" and "split_into_word_count_and_opcode" in show(n[1])]
     chk.check(R2, len(first) == 1, "split-used-once", "split calls: %s" % first, W)
 
-    R3 = chk.rule("R-QUANT", "parse_operands: words left and One|ZeroOrOne -> consume, next logical operand; words left and ZeroOrMore -> "
-                  "consume, same operand; no words and One -> OperandExpected(offset, n); no words and ZeroOrOne|ZeroOrMore -> stop")
+    R3 = chk.rule("R-QUANT", "parse_operands, abstractly interpreted on every operand list of length <= 3 over {One, ZeroOrOne, ZeroOrMore} with "
+                  "0..4 words left: words left and One|ZeroOrOne -> consume, next logical operand; words left and ZeroOrMore -> consume, same "
+                  "operand; no words and One -> OperandExpected(offset, n); no words and ZeroOrOne|ZeroOrMore -> stop; operands are "
+                  "delivered in consumption order; the special kinds are routed to result type / result id / context-dependent literal / "
+                  "switch pairs / nested opcode")
+    from . import quantx
     W = raw.where("parse_operands", "Parser")
-    po_ = parserx.parse_operands(ctx)
-    wantq = {(True, "One"): "next", (True, "ZeroOrOne"): "next", (True, "ZeroOrMore"): "same",
-             (False, "One"): ("error", "OperandExpected", ["self.decoder.offset()", "self.inst_index"]),
-             (False, "ZeroOrOne"): "stop", (False, "ZeroOrMore"): "stop"}
-    for k, v in wantq.items():
-        got = po_["quant"].get(k)
-        chk.check(R3, got == v, "words-left=%s,%s" % k, "action is %s, expected %s" % (got, v), W, sample=str(got))
-    chk.check(R3, set(po_["quant"]) == set(wantq), "quantifier-table-complete", "cells: %s" % sorted(po_["quant"]), W)
-    # generic arm goes through parse_operand(loperand.kind)
-    g = po_["generic"]
-    chk.check(R3, g is not None and "self.parse_operand(%s.kind)?" % po_["loperand"] in show(g) and "append" in show(g), "generic-kind-arm",
-              "generic arm is %s" % (show(g)[:100] if g else None), W)
-    chk.check(R3, po_["post"] == "Ok(dr::Instruction::new(%s.opcode, rtype, rid, coperands))" % po_["grammar"], "delivered-instruction",
-              "result is %s" % po_["post"], W)
-    it = po_["intercepted"]
-    chk.check(R3, show(unblock(it.get("IdResultType", ["?"]))) == "rtype = Some(self.decoder.id()?)" and
-              show(unblock(it.get("IdResult", ["?"]))) == "rid = Some(self.decoder.id()?)", "result-type/id-arms",
-              "IdResultType arm: %s; IdResult arm: %s" % (show(it.get("IdResultType", ["?"]))[:60], show(it.get("IdResult", ["?"]))[:60]), W)
-    # rtype / rid written nowhere else
-    writes = [show(n) for n in walk(po_["fn"]["body"]) if n[0] == "assign" and path_of(n[1]) in ("rtype", "rid")]
-    chk.check(R3, len(writes) == 2, "rtype/rid-single-writers", "assignments: %s" % writes, W)
-
+    nq = 0
+    shape_fail = None
+    for quants, words in quantx.cases():
+        kinds = ["K%d" % i for i in range(len(quants))]
+        try:
+            r, h = quantx.evaluate(ctx, kinds, quants, words)
+        except Anchor as ex:
+            shape_fail = str(ex)
+            break
+        nq += 1
+        want = quantx.reference(quants, words)
+        if want[0] == "err":
+            good = isinstance(r, tuple) and r[0] == "err" and r[1] == ("enum", "State::OperandExpected", [("sym", "offset"), ("selffield", "inst_index")])
+            got = r
+        else:
+            seq = [c[1] for c in h.consumed if c[0] == "operand"]
+            good = isinstance(r, tuple) and r[0] == "ok" and isinstance(r[1], tuple) and r[1][0] == "instruction" and seq == want[1] \
+                and len(h.consumed) == len(want[1]) and isinstance(r[1][4], tuple) and r[1][4][0] == "list" and len(r[1][4][1]) == len(want[1]) \
+                and r[1][2] == ("none",) and r[1][3] == ("none",)
+            got = (r[0] if isinstance(r, tuple) else r, seq)
+        chk.check(R3, good, "operands=%s words=%d" % (quants, words), "parse_operands yields %s, the grammar says %s" % (str(got)[:200], want), W,
+                  key="C03:quant:%s:%d" % ("/".join(quants), words), sample=str(want) if quants == ["One", "ZeroOrMore"] and words == 3 else None)
+    if shape_fail:
+        chk.bad(R3, "parse_operands", "parse_operands is not analysable: %s" % shape_fail, W, key="C03:parse_operands-shape")
+    chk.floor(R3, "quantifier cases", nq, 200)
+    # special kinds
+    sp = [("Undef-like: result type and id", ["IdResultType", "IdResult"], ["One", "One"], 2, "Undef", [("id",), ("id",)]),
+          ("Constant: literal sized by the result type", ["IdResultType", "IdResult", "LiteralContextDependentNumber"], ["One", "One", "One"], 3, "Constant", None),
+          ("Switch: pairs sized by the selector", ["IdRef", "IdRef", "PairLiteralIntegerIdRef"], ["One", "One", "ZeroOrMore"], 6, "Switch", None),
+          ("SpecConstantOp: nested opcode", ["IdResultType", "IdResult", "LiteralSpecConstantOpInteger"], ["One", "One", "One"], 3, "SpecConstantOp", None)]
+    for name, kinds, quants, words, opcode, _ in sp:
+        try:
+            r, h = quantx.evaluate(ctx, kinds, quants, words, opcode)
+        except Anchor as ex:
+            chk.bad(R3, "special:" + name, "not analysable: %s" % ex, W, key="C03:special-shape")
+            continue
+        ok = isinstance(r, tuple) and r[0] == "ok" and r[1][0] == "instruction"
+        why = str(r)[:200]
+        if ok and opcode == "Undef":
+            ok = r[1][2] == ("some", ("sym", "id1")) and r[1][3] == ("some", ("sym", "id2")) and r[1][4] == ("list", [])
+        elif ok and opcode == "Constant":
+            ok = h.consumed == [("id",), ("id",), ("literal", ("sym", "id1"))] and r[1][2] == ("some", ("sym", "id1")) and len(r[1][4][1]) == 1
+            why = "consumed %s" % h.consumed
+        elif ok and opcode == "Switch":
+            # selector, default, then (literal sized by the selector's id, label id) pairs
+            sel = ("sym", "w1")
+            ok = h.consumed == [("operand", "IdRef"), ("operand", "IdRef"), ("literal", sel), ("id",), ("literal", sel), ("id",)] and len(r[1][4][1]) == 6 \
+                and r[1][4][1][3] == ("enum", "Operand::IdRef", [("sym", "id4")])
+            why = "consumed %s" % h.consumed
+        elif ok and opcode == "SpecConstantOp":
+            ok = h.consumed == [("id",), ("id",), ("spec",)]
+            why = "consumed %s" % h.consumed
+        chk.check(R3, ok, "special:" + name, why, W, key="C03:special:%s" % opcode)
+    po_ = parserx.parse_operands(ctx) if False else None
     R4 = chk.rule("R-UNKNOWN", "every enumerant/mask operand is decoded through a method that rejects undeclared values with its own "
                   "<Kind>Unknown(offset - 4, word) error (audited decoder shape)")
     dm = codec.decoder_methods(ctx)
